@@ -452,7 +452,8 @@ def encodable(ins: tuple[str, list[Any]], allow_virtual: bool = False) -> str | 
 
 
 class Machine:
-    def __init__(self, prog: list[tuple[str, list[Any]]], regs: dict[str, int] | None = None, mem_seed: int = 0):
+    def __init__(self, prog: list[tuple[str, list[Any]]], regs: dict[str, int] | None = None, mem_seed: int = 0,
+                 dup_policy: str | None = None):
         self.prog = prog
         self.r: dict[str, int] = {}
         self.f: dict[str, int] = {}
@@ -464,7 +465,22 @@ class Machine:
             self.set(k, v)
         self.mem: dict[int, int] = {}  # word memory: aligned byte address → 32-bit word
         self.mem_seed = mem_seed
-        self.labels = {a[0]: i for i, (m, a) in enumerate(prog) if m == "label"}
+        # symbol table the way an assembler builds it: one definition per name.  A name that is defined twice makes
+        # the whole unit unassemblable (`unit_errors`); the machine refuses to resolve such a name instead of
+        # silently picking the first or the last definition
+        self.labels: dict[str, int] = {}
+        self.ambiguous: set[str] = set()
+        for i, (m, a) in enumerate(prog):
+            if m == "label":
+                if a[0] in self.labels:
+                    # `dup_policy` (only for explaining a rejected unit in a replay): what a tool that tolerated the
+                    # second definition would make of it - the first or the last definition wins
+                    if dup_policy is None:
+                        self.ambiguous.add(a[0])
+                    elif dup_policy == "last":
+                        self.labels[a[0]] = i
+                else:
+                    self.labels[a[0]] = i
         self.steps = 0
 
     @staticmethod
@@ -509,6 +525,8 @@ class Machine:
     def target(self, lab: Any) -> int:
         if not (isinstance(lab, tuple) and lab[1] in self.labels):
             raise Trap(f"undefined label {lab!r}")
+        if lab[1] in self.ambiguous:
+            raise Trap(f"label {lab[1]} is defined twice")
         return self.labels[lab[1]]
 
     def exec1(self, ins: tuple[str, list[Any]], pc: int) -> int | None:
@@ -621,6 +639,8 @@ class Machine:
     def call(self, entry: str, fuel: int = 200000) -> None:
         if entry not in self.labels:
             raise Trap(f"no label {entry}")
+        if entry in self.ambiguous:
+            raise Trap(f"label {entry} is defined twice")
         self.set("ra", HALT)
         pc: int | None = self.labels[entry]
         while pc is not None:
@@ -630,6 +650,68 @@ class Machine:
                 raise Trap("fuel")
             self.steps += 1
             pc = self.exec1(self.prog[pc], pc)
+
+
+def label_defs(prog: list[tuple[str, list[Any]]]) -> list[str]:
+    """the names the unit defines, in order of definition (function names and local labels share one namespace)"""
+    return [a[0] for m, a in prog if m == "label"]
+
+
+def duplicates(names: list[str]) -> list[str]:
+    seen: set[str] = set()
+    out: list[str] = []
+    for n in names:
+        if n in seen and n not in out:
+            out.append(n)
+        seen.add(n)
+    return out
+
+
+def assemble(prog: list[tuple[str, list[Any]]]) -> tuple[str, Any]:
+    """the unit's symbol table: ("dup", name) - the first name that gets a second definition; ("undef", name) - the
+    first branch / jump target without definition; ("ok", [position of the definition per resolved target, in
+    instruction order]).  `jal` to a name the unit does not define is left to the linker."""
+    dups = duplicates(label_defs(prog))
+    if dups:
+        return ("dup", dups[0])
+    table = {a[0]: i for i, (m, a) in enumerate(prog) if m == "label"}
+    out = []
+    for m, a in prog:
+        if (m in BR_OPS or m in ("j", "jal")) and a and isinstance(a[-1], tuple):
+            n = a[-1][1]
+            if n in table:
+                out.append(table[n])
+            elif m != "jal":
+                return ("undef", n)
+    return ("ok", out)
+
+
+def lean_unit(prog: list[tuple[str, list[Any]]]) -> tuple[str, dict[str, int]]:
+    """protocol text of the unit for the Lean model `riscv_labels` (names numbered by first appearance)"""
+    idx: dict[str, int] = {}
+    defined = set(label_defs(prog))
+    items = []
+    for m, a in prog:
+        if m == "label":
+            items.append(f"L{idx.setdefault(a[0], len(idx))}")
+        elif (m in BR_OPS or m in ("j", "jal")) and a and isinstance(a[-1], tuple) and not (m == "jal" and a[-1][1] not in defined):
+            items.append(f"T{idx.setdefault(a[-1][1], len(idx))}")
+        else:
+            items.append("I")
+    return "asm " + " ".join(items), idx
+
+
+def unit_errors(prog: list[tuple[str, list[Any]]]) -> list[str]:
+    """why an assembler rejects the unit as a whole (independent of any input): a symbol defined twice, or a
+    branch / jump to a label the unit does not define (`jal` may name an external function: left to the linker)"""
+    out = [f"label {n} is defined twice" for n in duplicates(label_defs(prog))]
+    defined = set(label_defs(prog))
+    for m, a in prog:
+        if (m in BR_OPS or m == "j") and a and isinstance(a[-1], tuple) and a[-1][1] not in defined:
+            msg = f"`{fmt((m, a))}`: label {a[-1][1]} is not defined"
+            if msg not in out:
+                out.append(msg)
+    return out
 
 
 def fmt(ins: tuple[str, list[Any]]) -> str:
